@@ -7,7 +7,7 @@ from ..cfg import typestate, witness_path
 from ..core import INCONCLUSIVE, OK, VIOLATION, Ctx, is_self_attr
 from ..model import AnalysisError, body_walk, norm
 from . import c05
-from .common import active_store, calls_method, cond_consult, history_mutations, is_history_append, node_has_effect
+from .common import consult_verdict, active_store, calls_method, cond_consult, history_mutations, is_history_append, node_has_effect
 
 EXPLANATION = """
 Static decision of the lifecycle clause of C06: (R06.1) `_active` is stored True only in
@@ -32,7 +32,25 @@ ASSUMPTIONS = [
 ]
 
 
-def r06_1(ctx: Ctx):
+def _under_true_gsc(ctx, f, stmt) -> bool:
+    """Is the statement nested in the true branch of `if <gsc consult>`?"""
+    from ..core import parents_map
+    from .common import stop_call_kind
+
+    par = parents_map(f.node)
+    cur = stmt
+    while id(cur) in par:
+        p = par[id(cur)]
+        if isinstance(p, ast.If) and cur in p.body:
+            t = p.test
+            conj = t.values if isinstance(t, ast.BoolOp) and isinstance(t.op, ast.And) else [t]
+            if any(isinstance(c, ast.Call) and stop_call_kind(ctx, f, c) == "gsc" for c in conj):
+                return True
+        cur = p
+    return False
+
+
+def r06_1(ctx: Ctx, monotone_only: bool = False):
     """R06.1 `_active`: True only in AbstractDeme.__init__; every other store is `self._active = False` inside a deme method."""
     base = ctx.prog.cls("AbstractDeme")
     obs = []
@@ -68,7 +86,13 @@ def r06_1(ctx: Ctx):
                         elif by_self and val is False and f.name != "__init__":
                             obs.append(ctx.ob("R06.1", f, n, detail="deme deactivates itself"))
                         elif by_self and val is False and f.name == "__init__":
-                            obs.append(ctx.ob("R06.1", f, n, status=VIOLATION, detail="a deme is constructed inactive"))
+                            obs.append(ctx.ob("R06.1", f, n, status=OK if monotone_only else VIOLATION, detail="a deme is constructed inactive"))
+                        elif val is False and monotone_only:
+                            obs.append(ctx.ob("R06.1", f, n, detail=f"{f.short} deactivates a deme (activity only ever decreases)"))
+                        elif val is False and _under_true_gsc(ctx, f, n):
+                            obs.append(ctx.ob("R06.1", f, n, detail=f"{f.short} deactivates a deme because the global stop condition holds"))
+                        elif val == "?":
+                            obs.append(ctx.ob("R06.1", f, n, status=INCONCLUSIVE, detail=f"`_active` stored from `{norm(v) if v is not None else '<aug/del>'}` by {f.short}"))
                         else:
                             obs.append(ctx.ob("R06.1", f, n, status=VIOLATION, detail=f"`_active` stored as {norm(v) if v is not None else '<aug/del>'} by {f.short} (only AbstractDeme.__init__ may store True; only the deme itself may store False)"))
     return obs
@@ -290,16 +314,16 @@ def r06_4(ctx: Ctx):
 
         def edge_fn(n, lab, s):
             g, l, st, ap, de = s
-            pg = cond_consult(ctx, f, n, "gsc")
-            pl = cond_consult(ctx, f, n, "lsc")
-            if pg == 2 or pl == 2:
+            vg = consult_verdict(ctx, f, n, "gsc", lab)
+            vl = consult_verdict(ctx, f, n, "lsc", lab)
+            if vg == "?" or vl == "?":
                 unknown.append(n)
                 return s
             if lab in (True, False):
-                if pg:
-                    g = lab if pg == 1 else (not lab)
-                if pl:
-                    verdict = lab if pl == 1 else (not lab)
+                if vg is not None:
+                    g = vg
+                if vl is not None:
+                    verdict = vl
                     if ap == 0 and verdict:
                         viol.append((n, s, "LSC consulted before the metaepoch's generations were recorded"))
                     l = verdict
@@ -343,7 +367,7 @@ def r06_4(ctx: Ctx):
 def r06_5(ctx: Ctx):
     """R06.5 in run_step the metaepoch precedes sprouting and is not run again after it (shared automaton with R05.3)."""
     out = []
-    for o in c05.r05_3(ctx):
+    for o in c05.r05_3(ctx, need_gsc=False):
         o.rule = "R06.5"
         out.append(o)
     return out
@@ -488,7 +512,9 @@ def r06_8(ctx: Ctx):
 def r06_9(ctx: Ctx):
     """R06.9 every engine observes the GSC after each of its generations (shared engine typestate of R05.4): a deme that never looks stays active when the run stops."""
     out = []
-    for o in c05.r05_4(ctx):
+    for o in c05.r05_4(ctx, between_generations=False):
+        if "evaluated after the GSC was observed true" in o.detail:
+            continue  # C05's wind-down bound; the lifecycle only needs the deme to observe the GSC before it returns
         o.rule = "R06.9"
         out.append(o)
     return out
